@@ -55,7 +55,7 @@ inductive GErr where
 /-- append the dependency's define to `notify`; the variable must be a list (or absent) -/
 def notifyAppend (env : Env) (dep : Module) : Except GErr Env :=
   match env.get "notify" with
-  | some (.single _) => .error (.panic "module.rs:build_env unexpected notify value")
+  | some (.single _) => .error (.error "module.rs:build_env notify must be a list")
   | some (.list l) => .ok (env.insert "notify" (.list (l ++ [defineName dep.name])))
   | none => .ok (env.insert "notify" (.list [defineName dep.name]))
 
